@@ -493,7 +493,7 @@ def accept_cell(P, A):
                 b = ro_builder(['a', 'b'], mid, ro_id=rids[i], completed=occ in (P.get('completed_rc') or ()))
             else:
                 b = msg_builder(kind, 'a', mid, ro_id=rids[i])
-            handles.append(W.doc(b, kind=src))
+            handles.append(W.doc(b, kind='string' if src == 'readers' else src))
         if P.get('repeat') is not None and P['repeat'] < len(handles):
             # the very same string / path / key listed twice: two readers, counted twice
             handles.append(handles[P['repeat']])
@@ -508,20 +508,36 @@ def accept_cell(P, A):
         if src == 's3':
             W.pages = [{'Contents': [{'Key': h} for h in handles]}]
 
+        readers_list = None
+
         def build():
             if src == 'string':
                 return mc_mod.MosCollection.from_strings(handles, allow_incomplete=allow)
             if src == 'file':
                 return mc_mod.MosCollection.from_files(handles, allow_incomplete=allow)
+            if src == 'readers':
+                # the documented constructor, given a list of readers the caller keeps (and uses again)
+                return mc_mod.MosCollection(readers_list, allow_incomplete=allow)
             return mc_mod.MosCollection.from_s3(bucket_name='b', prefix='prefix/', allow_incomplete=allow)
+        if src == 'readers':
+            readers_list = [mc_mod.MosReader.from_string(h) for h in handles]
+            kept = list(readers_list)
         out = call(build, exc)
         B.hit()
+        if src == 'readers':
+            again = call(build, exc)
+            if again.raised != out.raised or (out.raised and type(again.exc) is not type(out.exc)):
+                sig = 'second-collection-from-the-same-readers-differs'
+            elif len(readers_list) != len(kept) or any(a is not b for a, b in zip(readers_list, kept)):
+                sig = "the-caller's-reader-list-was-changed"
         one_id = True
         for r in rids[1:]:
             if (r is None) != (rids[0] is None) or (r is not None and r != rids[0]):
                 one_id = False
         want = n >= 1 and one_id and n_rc == 1 and n_rd <= 1 and (allow or n_rd == 1)
-        if want:
+        if sig is not None:
+            pass
+        elif want:
             if out.raised:
                 sig = 'valid-collection-rejected-' + type(out.exc).__name__
             else:
@@ -964,6 +980,7 @@ SCENARIOS = {
     'two-rocreate': ['roCreate', 'roCreate', 'roDelete'],
     'malformed-file': ['roCreate', 'malformed', 'roDelete'],
     'missing-file': ['roCreate', 'missing', 'roDelete'],
+    'directory-listed': ['roCreate', 'directory', 'roStoryMove', 'roDelete'],
     'unknown-xml': ['roCreate', 'unknown-xml', 'roDelete'],
     'reversed': ['roDelete@30', 'roStorySend@20', 'roCreate@5'],
     'same-path-twice': ['roCreate', 'roStoryAppend', '=1', 'roDelete'],
@@ -1132,8 +1149,13 @@ def cli_merge_cell(P, A):
         err = cap.err.getvalue()
         if outfile and outmode in ('file', 'over-input') and W.replay and os.path.isfile(outfile) and not ref.raised:
             cap.written[outfile] = open(outfile).read()
+        # a listed file that cannot be read as a MOS message is an error whatever else is listed
+        unreadable = any(sp.partition('#')[0].partition('@')[0] in ('missing', 'directory', 'malformed', 'unknown-xml', 'binary-junk')
+                         for sp in scen)
         if out.raised:
             sig = 'raised-' + type(out.exc).__name__
+        elif unreadable and out.result != 2:
+            sig = 'unreadable-input-but-exit-status-%r' % (out.result,)
         elif ref.raised or outmode == 'bad-dir':
             if out.result != 2:
                 sig = 'error-but-exit-status-%r' % (out.result,)
